@@ -5,6 +5,7 @@ import (
 	"context"
 	"errors"
 	"math"
+	"strings"
 	"testing"
 	"testing/synctest"
 	"time"
@@ -109,7 +110,15 @@ func propJanitor(c *Case) {
 			jobInterval = 2 * farFuture
 		}
 
+		// a logger whose Important level may act on the cache itself (a client reacting to "deleted all entries")
+		var onImportant func(msg string)
+
 		be := newCaseBackend(c, kind, cache.Config{
+			Logger: hookLogger{onImportant: func(msg string) {
+				if onImportant != nil {
+					onImportant(msg)
+				}
+			}},
 			TimeToLive: cfgTTL, ExpirationJitter: jit,
 			DeleteExpiredJobInterval: jobInterval, DeleteExpiredAfter: cfgDea,
 			HeapInUseSoftLimit: heapLimit, SysMemSoftLimit: sysLimit, CountSoftLimit: countLimit,
@@ -245,7 +254,39 @@ func propJanitor(c *Case) {
 				wMass = 3
 			}
 
-			switch c.Weighted("op", 5, 5, 1, 1, wExpireAll, wCycle, wMass, 1) {
+			switch c.Weighted("op", 5, 5, 1, 1, wExpireAll, wCycle, wMass, 1, 1) {
+			case 8:
+				// DeleteAll; while it reports "deleted all entries" a client writes a new entry with an explicit TTL
+				sync()
+
+				var (
+					lateKey []byte
+					lateTTL time.Duration
+					lateTok string
+				)
+
+				if jit < 0 && c.Bool("write-while-DeleteAll-reports") {
+					lateKey, lateTTL = baseKeys[c.Pick("key", len(baseKeys))], ttlMenu[c.Pick("ttl", len(ttlMenu))]
+					lateTok = d.token(lateKey)
+					onImportant = func(msg string) {
+						if strings.HasPrefix(msg, "deleted all") {
+							_ = be.Write(ttlCtx(lateTTL), lateKey, lateTok)
+						}
+					}
+				}
+
+				now := time.Now()
+				d.deleteAll()
+				onImportant = nil
+
+				if lateKey != nil {
+					e := d.ref.write(now, lateKey, lateTok, lateTTL)
+					_ = e
+					writtenAt[string(lateKey)] = now.UnixNano()
+					c.Class("write-while-DeleteAll-reports")
+				}
+
+				c.Class("deleteall")
 			case 7:
 				// entries that arrive with their expiry through Restore of another instance's dump
 				sync()
@@ -448,3 +489,11 @@ func TestC11FailoverOwnedBackend(t *testing.T) {
 		})
 	})
 }
+
+// hookLogger is sinkLogger with a hook on the Important level.
+type hookLogger struct {
+	sinkLogger
+	onImportant func(msg string)
+}
+
+func (h hookLogger) Important(_ context.Context, msg string, _ ...interface{}) { h.onImportant(msg) }
